@@ -8,24 +8,47 @@ EXTRA = {'C05_1': ['C07'], 'C06_1': ['C08'], 'C10_2': ['C13'], 'C17_2': ['C02'],
          # round 2
          'C02_3': ['C08'], 'C05_4': ['C07'], 'C07_3': ['C05'], 'C07_4': ['C13'], 'C08_3': ['C02'], 'C10_3': ['C13'], 'C10_4': ['C07'],
          'C13_3': ['C10'], 'C06_3': ['C08'], 'C17_4': ['C08', 'C02'], 'C11_4': ['C16'], 'C06_4': ['C05', 'C04'], 'C03_3': ['C17'],
-         'C17_3': ['C02'], 'C09_4': ['C02'], 'C12_4': ['C04'], 'C15_3': ['C16'], 'C01_3': ['C17']}
+         'C17_3': ['C02'], 'C09_4': ['C02'], 'C12_4': ['C04'], 'C15_3': ['C16'], 'C01_3': ['C17'],
+         # round 3
+         'C06_5': ['C05', 'C08'], 'C02_6': ['C08'], 'C05_6': ['C07'], 'C10_5': ['C07'], 'C12_5': ['C10', 'C07'], 'C01_5': ['C17'],
+         'C01_6': ['C03'], 'C17_6': ['C01'], 'C11_5': ['C02'], 'C04_6': ['C16']}
 def sh(cmd):
     return subprocess.run(cmd, shell=True, text=True, capture_output=True)
 def main():
-    ids = sys.argv[1:] or sorted(d for d in os.listdir(os.path.join(VERIF, 'seeded')) if os.path.isdir(os.path.join(VERIF, 'seeded', d)))
+    global VERIF
+    args = sys.argv[1:]
+    REPO, RUN, sb = '/repo', VERIF, None
+    if args and args[0] == '--sandbox':
+        # run in a private copy of /verif against a scratch worktree of /repo (tools/sandbox.py): /repo itself is not touched
+        sys.path.insert(0, os.path.join(VERIF, 'tools'))
+        import sandbox
+        sb = args[1]
+        RUN, REPO = sandbox.make(sb)
+        args = args[2:]
+    os.environ['VERIF_REPO'] = REPO
+    try:
+        return run(args, REPO, RUN)
+    finally:
+        if sb:
+            import sandbox
+            sandbox.destroy(sb)
+
+
+def run(args, REPO, RUN):
+    ids = args or sorted(d for d in os.listdir(os.path.join(VERIF, 'seeded')) if os.path.isdir(os.path.join(VERIF, 'seeded', d)))
     for mid in ids:
         d = os.path.join(VERIF, 'seeded', mid)
         prop = mid.split('_')[0]
         props = [prop] + EXTRA.get(mid, [])
-        if sh('git -C /repo status --porcelain --untracked-files=no').stdout.strip():
+        if sh('git -C %s status --porcelain --untracked-files=no' % REPO).stdout.strip():
             print('REFUSING: /repo dirty'); return 2
-        if sh('git -C /repo apply %s/patch.diff' % d).returncode != 0:
+        if sh('git -C %s apply %s/patch.diff' % (REPO, d)).returncode != 0:
             print(mid, 'PATCH DOES NOT APPLY'); continue
         results = {}
         try:
             for p in props:
                 t = time.time()
-                r = sh('cd %s && ./check %s quick' % (VERIF, p))
+                r = sh('cd %s && ./check %s quick' % (RUN, p))
                 v = [l for l in r.stdout.splitlines() if l.startswith('VIOLATION')]
                 info = dict(exit=r.returncode, seconds=round(time.time() - t), violation_line=v[0] if v else None)
                 if v:
@@ -39,9 +62,9 @@ def main():
                 results[p] = info
                 print(mid, p, 'exit=%d' % r.returncode, (v[0][:120] if v else ''), flush=True)
         finally:
-            sh('git -C /repo apply -R %s/patch.diff' % d)
-            if sh('git -C /repo status --porcelain --untracked-files=no').stdout.strip():
-                sh('git -C /repo checkout -- .')
+            sh('git -C %s apply -R %s/patch.diff' % (REPO, d))
+            if sh('git -C %s status --porcelain --untracked-files=no' % REPO).stdout.strip():
+                sh('git -C %s checkout -- .' % REPO)
         meta_p = os.path.join(d, 'meta.json')
         meta = json.load(open(meta_p)) if os.path.exists(meta_p) else {}
         conf = json.load(open(os.path.join(d, 'confirm.json'))) if os.path.exists(os.path.join(d, 'confirm.json')) else {}
@@ -54,7 +77,7 @@ def main():
                            builds_with_hooks=conf.get('builds_with_hooks'),
                            demo_fails_with_change=(conf.get('demo_with_mutant_rc', 0) != 0), demo_passes_without=(conf.get('demo_without_mutant_rc', 1) == 0),
                            how='tools/confirm_mutant.py in a scratch worktree /tmp/wt/confirm: git apply; cargo test --workspace --offline; cargo build --features verif-hooks; demo as tests/<demo>.rs with and without the change'),
-            checks_run='git -C /repo apply patch.diff; ./check <P> quick for P in %s; git -C /repo apply -R patch.diff' % props,
+            checks_run='git -C %s apply patch.diff; ./check <P> quick for P in %s (in %s, VERIF_REPO=%s); git apply -R patch.diff' % (REPO, props, RUN, REPO),
             check_results=results,
             detected=any(r['exit'] == 1 for r in results.values()),
             detected_with_concrete_input=any(r.get('kind') == 'counterexample' for r in results.values())))
